@@ -512,6 +512,57 @@ func stormCase(c *core.Ctx, code byte, trial int) {
 	}
 }
 
+// twoAgentsCase: two agents live in one process.  A client waiting on a code of the first is released only by a request
+// received by the first agent - a request with the same code received by the second one does not concern it.
+func twoAgentsCase(c *core.Ctx, code byte) {
+	w1, err := newWorld()
+	if err != nil {
+		c.Native("cannot start the yubiagent server: "+err.Error(), nil)
+		return
+	}
+	defer w1.close()
+	w2, err := newWorld()
+	if err != nil {
+		c.Native("cannot start a second yubiagent server: "+err.Error(), nil)
+		return
+	}
+	defer w2.close()
+	input := map[string]interface{}{"code": code}
+	done := make(chan struct{})
+	go func() { core.Guard(func() { _ = w1.shim.Wait(code) }); close(done) }()
+	deadline := time.Now().Add(2 * time.Second)
+	for w1.shim.VerifWaiters(code) < 1 && time.Now().Before(deadline) {
+		time.Sleep(100 * time.Microsecond)
+	}
+	req2, _, err := w2.connect()
+	if err != nil {
+		c.Native("cannot connect: "+err.Error(), input)
+		return
+	}
+	_, _ = req2.Forward([]byte{code, 0, 0, 0, 0})
+	_ = w2.shim.Broadcast(code)
+	select {
+	case <-done:
+		c.Native(fmt.Sprintf("a client waiting on code %d of one agent was released by a request received by ANOTHER agent of the same process", code), input)
+		return
+	case <-time.After(150 * time.Millisecond):
+		c.NativeCheck(1)
+	}
+	req1, _, err := w1.connect()
+	if err != nil {
+		c.Native("cannot connect: "+err.Error(), input)
+		return
+	}
+	_, _ = req1.Forward([]byte{code, 0, 0, 0, 0})
+	select {
+	case <-done:
+		c.NativeCheck(1)
+	case <-time.After(2 * time.Second):
+		c.Native(fmt.Sprintf("a client waiting on code %d was not released by a request with that code received by its own agent (a second agent exists in the process)", code), input)
+		_ = w1.shim.Broadcast(code)
+	}
+}
+
 // agedCase: after n earlier requests with the code (n-1 of them delivered straight to the shim's Broadcast, the
 // way ServeAgent delivers every request's first byte, the last one through a client connection when the code
 // is a listing request), a fresh waiter still parks, stays parked while other codes are requested, and is
@@ -667,6 +718,11 @@ func runC20(c *core.Ctx) {
 		for _, code := range []byte{11, 39} {
 			agedCase(c, n, code)
 		}
+	}
+
+	// two agents in one process
+	for _, code := range []byte{11, 13, 0, 39} {
+		twoAgentsCase(c, code)
 	}
 
 	// a request arriving while other clients register on the same code
